@@ -260,13 +260,13 @@ func tableLayerRun(ctx *core.Ctx, op string) {
 	// <=2 repeated rows inserted at every position, six hash families
 	maxK := 11
 	families := []func(k int) uint64{
-		func(k int) uint64 { return 0 },                       // all equal
-		func(k int) uint64 { return uint64(k) << 3 },          // one bucket at size 8, spread later
-		func(k int) uint64 { return uint64(k) },               // consecutive
-		func(k int) uint64 { return uint64(k) + 6 },           // consecutive from bucket 6 (wrap-around)
-		func(k int) uint64 { return uint64(k%2)*5 + 1<<32 },   // two clusters, high bits set
-		func(k int) uint64 { return uint64(k) * 0x9E3779B1 },  // all distinct, scattered
-		func(k int) uint64 { return uint64(k)<<32 | 3 },       // equal after truncation to 32 bits
+		func(k int) uint64 { return 0 },                      // all equal
+		func(k int) uint64 { return uint64(k) << 3 },         // one bucket at size 8, spread later
+		func(k int) uint64 { return uint64(k) },              // consecutive
+		func(k int) uint64 { return uint64(k) + 6 },          // consecutive from bucket 6 (wrap-around)
+		func(k int) uint64 { return uint64(k%2)*5 + 1<<32 },  // two clusters, high bits set
+		func(k int) uint64 { return uint64(k) * 0x9E3779B1 }, // all distinct, scattered
+		func(k int) uint64 { return uint64(k)<<32 | 3 },      // equal after truncation to 32 bits
 	}
 	for k := 5; k <= maxK; k++ {
 		base := make([]int, k)
